@@ -69,6 +69,8 @@ struct Location {
     seen: HashMap<usize, usize>,
     /// per task: epoch of the task's latest access to this location
     last_access: HashMap<usize, u32>,
+    /// largest value ever stored (a reference count exceeds 1, a flag never does)
+    max_value: u64,
 }
 
 #[derive(Clone, Copy, Debug, PartialEq, Eq)]
@@ -129,6 +131,9 @@ struct State {
     trace: Vec<String>,
     trace_on: bool,
     releases: Vec<ReleaseRec>,
+    free_on_zero: bool,
+    dead_counters: HashMap<usize, usize>,
+    use_after_free: Vec<String>,
 }
 
 #[derive(Clone, Debug)]
@@ -319,6 +324,7 @@ impl State {
             });
         }
         loc.last_access.insert(t, epoch);
+        loc.max_value = loc.max_value.max(old).max(new.unwrap_or(0));
         let latest = loc.stores.len() - 1;
         match kind {
             OpKind::Load => {
@@ -435,6 +441,46 @@ impl State {
     }
 }
 
+impl State {
+    /// An access to a counter that already dropped to zero (and was not re-initialised since).
+    fn refcount_watch(&mut self, t: usize, addr: usize, kind: OpKind, old: u64, new: Option<u64>) {
+        if let Some(by) = self.dead_counters.get(&addr).copied() {
+            if old == 0 {
+                self.use_after_free.push(format!("task {t} performed {kind:?} (read 0, wrote {new:?}) on a reference count that task {by} had already dropped to zero"));
+            }
+            // either way the location is being re-used or was reported: stop watching
+            self.dead_counters.remove(&addr);
+        }
+    }
+
+    fn refcount_zero(&mut self, t: usize, addr: usize) {
+        let is_counter = self.locs.get(&addr).is_some_and(|l| l.max_value >= 2);
+        if !is_counter {
+            return;
+        }
+        let clock = self.tasks[t].clock.clone();
+        let mut unordered = Vec::new();
+        for a in [addr, addr.wrapping_sub(8), addr + 8] {
+            let Some(loc) = self.locs.get(&a) else { continue };
+            if a != addr && loc.max_value >= 2 {
+                continue; // a neighbouring counter, not this object's flag word
+            }
+            for (u, e) in &loc.last_access {
+                if *u != t && *e > clock.get(*u) && !unordered.contains(u) {
+                    unordered.push(*u);
+                }
+            }
+        }
+        self.dead_counters.insert(addr, t);
+        self.releases.push(ReleaseRec {
+            addr,
+            size: 8,
+            task: t,
+            unordered_with: unordered,
+        });
+    }
+}
+
 fn task_or_main(sh: &Shared) -> usize {
     me().unwrap_or_else(|| lock(sh).ntasks)
 }
@@ -452,7 +498,13 @@ pub fn hook_atomic(addr: usize, kind: OpKind, success: Ordering, failure: Orderi
     }
     let (old, new) = exec();
     let mut st = lock(&sh);
+    if st.free_on_zero {
+        st.refcount_watch(t, addr, kind, old, new);
+    }
     let v = st.atomic(t, addr, kind, success, failure, old, new);
+    if st.free_on_zero && kind == OpKind::Rmw && old == 1 && new == Some(0) {
+        st.refcount_zero(t, addr);
+    }
     if st.trace_on {
         let line = format!("t{t} {kind:?} @{:x} {success:?} old={old} new={new:?} -> {v}", addr & 0xfff);
         st.trace.push(line);
@@ -622,6 +674,7 @@ pub struct Outcome {
     pub hung: bool,
     pub races: Vec<Race>,
     pub releases: Vec<ReleaseRec>,
+    pub use_after_free: Vec<String>,
     pub panics: Vec<(usize, String)>,
     pub trace: Vec<String>,
 }
@@ -630,6 +683,11 @@ pub struct Config {
     pub max_steps: u64,
     pub stale_loads: bool,
     pub trace: bool,
+    /// Treat "an RMW takes a counter that has been >= 2 from 1 to 0" as the release of the object
+    /// holding it (reference-counted metadata): every earlier access of other tasks to that
+    /// counter and to flag words directly next to it must happen-before it, and any later access
+    /// to the dead counter is recorded as a use after free.
+    pub free_on_refcount_zero: bool,
 }
 
 impl Default for Config {
@@ -638,6 +696,7 @@ impl Default for Config {
             max_steps: 20_000,
             stale_loads: true,
             trace: false,
+            free_on_refcount_zero: false,
         }
     }
 }
@@ -767,6 +826,9 @@ where
             trace: Vec::new(),
             trace_on: cfg.trace,
             releases: Vec::new(),
+            free_on_zero: cfg.free_on_refcount_zero,
+            dead_counters: HashMap::new(),
+            use_after_free: Vec::new(),
         }),
         turn: AtomicUsize::new(usize::MAX),
         free_run: AtomicBool::new(false),
@@ -903,6 +965,7 @@ where
         hung,
         races: st.races.clone(),
         releases: st.releases.clone(),
+        use_after_free: st.use_after_free.clone(),
         panics,
         trace: st.trace.clone(),
     }
